@@ -113,6 +113,9 @@ def gen(rng, thorough):
     d = gen_data_args(rng, thorough)
     c = {'t': t, 'data': d}
     w, n = d['n_features'], d['n_samples']
+    if t in ('dup', 'comb', 'seq') and rng.random() < 0.3:
+        # values near the ends of the int32 range: a sum / copy of int32 columns must still be the stated function of its sources
+        d['low'] = rng.choice([2 ** 30 - 3, 1_200_000_000, 2 ** 31 - 20, -2 ** 31 + 5, -1_500_000_000, 2 ** 29])
     if t == 'dup':
         c['idx'], c['form'] = gen_index(rng, w)
     elif t == 'comb':
